@@ -348,6 +348,21 @@ def o_copies(spec, tr):
     return out
 
 
+def o_idsweep(spec, tr):
+    """C02: span ids of distinct spans are distinct across threads — each thread's ids start at an independent
+    32-bit prefix.  For n sequential threads the number of pairs sharing a prefix is Poisson(n^2 / 2^33); more than
+    eight pairs has probability < 1e-9 for n = 70000 and means prefixes are being reused systematically."""
+    out = []
+    for i, o in enumerate(tr.outs):
+        if o.startswith("sweep "):
+            f = dict(x.split("=") for x in o.split()[1:])
+            n, k = int(f["n"]), int(f["dup_pairs"])
+            if k > 8 + n * n / 2 ** 33 * 4:
+                out.append("%d threads created one after another: %d pairs of them drew the same first span id (about %.2f expected for independent 32-bit "
+                           "prefixes): distinct spans on different threads get equal span ids" % (n, k, n * n / 2 ** 33))
+    return out
+
+
 def o_times(spec, tr, times):
     """C18: durations, begin times, containment, sibling order, event timestamps, elapsed()"""
     out = []
@@ -420,5 +435,5 @@ def o_times(spec, tr, times):
     return out
 
 
-ALL = {"no_panic": o_no_panic, "ids": o_ids, "tree": o_tree, "exactly_once": o_exactly_once, "attachments": o_attachments,
+ALL = {"idsweep": o_idsweep, "no_panic": o_no_panic, "ids": o_ids, "tree": o_tree, "exactly_once": o_exactly_once, "attachments": o_attachments,
        "contexts": o_contexts, "closures": o_closures, "retained": o_retained, "copies": o_copies}
